@@ -51,6 +51,7 @@ def ob_class(ctx):
     ctx.observe("valid", valid)
     if not valid:
         ctx.witness("rejected")
+        ctx.require(ent.is_valid() is False, "second-is_valid-differs")
         for acc in ("overhang_start", "overhang_end", "target_sequence"):
             try:
                 getattr(ent, acc)()
@@ -112,6 +113,10 @@ def ob_class(ctx):
                        for a in range(n)])
 
         ctx.require_exists(wit2, full2, "placeholder-not-the-contiguous-complement-of-target")
+    # asking the same instance again gives the same answers (the match is cached per instance)
+    ctx.require(ent.is_valid() is True, "second-is_valid-differs")
+    ctx.require(seq_eq(ent.overhang_start(), os_) and True, "second-overhang_start-differs")
+    ctx.require(seq_eq(ent.target_sequence().seq, tgt.seq), "second-target-differs")
     # the fragment carries a generated source feature naming the plasmid
     src = [f for f in tgt.features if f.type == "source"]
     ctx.require(len(src) == 1 and src[0].qualifiers.get("plasmid") == "rec", "source-feature")
